@@ -327,3 +327,18 @@ Definition error_legal (e : ierror) : bool := type_name_ok (e_name e) && forallb
 Definition iface_legal (i : iface) : bool :=
   forallb method_legal (i_methods i) && forallb custom_legal (i_types i) &&
   forallb error_legal (i_errors i).
+
+(* ------------------------------------------------------------------ borrowed string outputs *)
+(* Known class (open finding C15.borrowed_str_output_escape): serde can only borrow a `&'a str` from
+   a JSON string that needs no unescaping; a field so typed does not decode a string with escapes. *)
+Fixpoint is_prefix (p s : string) : bool :=
+  match p, s with
+  | EmptyString, _ => true
+  | String a p', String b s' => Ascii.eqb a b && is_prefix p' s'
+  | _, _ => false
+  end.
+Fixpoint is_infix (p s : string) : bool :=
+  is_prefix p s || match s with EmptyString => false | String _ r => is_infix p r end.
+Definition borrows_str (ty : string) : bool := is_infix "&'a str" ty.
+Definition field_decodes (f : gfield) (value_needs_unescape : bool) : bool :=
+  negb (value_needs_unescape && borrows_str (gf_ty f)).
